@@ -19,10 +19,10 @@
 EXTENDS Diff, Json
 
 CONSTANTS A0, Vals, Mems, InfoKeys, MaxEdits, MaxHand, Mode, ApplyFlags
-VARIABLES B, T, D, D2, D3, ret, fl, pc, ned, chk, hist
+VARIABLES B, T, D, D2, D3, ret, bret, fl, pc, ned, chk, hist
 
-vars == <<B, T, D, D2, D3, ret, fl, pc, ned, chk, hist>>
-View == <<B, T, D, D2, D3, ret, fl, pc, ned, chk>>
+vars == <<B, T, D, D2, D3, ret, bret, fl, pc, ned, chk, hist>>
+View == <<B, T, D, D2, D3, ret, bret, fl, pc, ned, chk>>
 
 ASSUME WF(A0)
 N0 == NObj(A0)
@@ -91,7 +91,7 @@ XmlSafe(E) == \A k \in 1..Len(E) : E[k].t \in {"name", "info", "size", "complex"
 ---------------------------------------------------------------------------
 H(r) == hist' = Append(hist, r)
 
-Init == /\ B = A0 /\ T = A0 /\ D = <<>> /\ D2 = <<>> /\ D3 = <<>> /\ ret = 0 /\ fl = 0
+Init == /\ B = A0 /\ T = A0 /\ D = <<>> /\ D2 = <<>> /\ D3 = <<>> /\ ret = 0 /\ bret = 0 /\ fl = 0
         /\ pc = "start" /\ ned = 0 /\ chk = TRUE /\ hist = <<>>
 
 \* ---- mode "build"
@@ -101,25 +101,26 @@ Edit == /\ Mode = "build" /\ pc = "start" /\ ned < MaxEdits
              /\ B' = DoEdit(B, e)
              /\ H([a |-> "edit", e |-> e])
         /\ ned' = ned + 1 /\ chk' = WF(B')
-        /\ UNCHANGED <<T, D, D2, D3, ret, fl, pc>>
+        /\ UNCHANGED <<T, D, D2, D3, ret, bret, fl, pc>>
 
 Build1 == /\ Mode = "build" /\ pc = "start"
           /\ LET r == ModelBuild(A0, B) IN
-               /\ D' = r.E /\ ret' = r.ret
+               /\ D' = r.E /\ ret' = r.ret /\ bret' = r.ret
                /\ chk' = BuildRel(A0, B, r.ret, r.E)
-               /\ pc' = IF r.ret = 0 THEN "built" ELSE "done"
+               \* when the answer may be 0 or TOO_COMPLEX (Ambig) the whole scenario runs: the library may have answered 0
+               /\ pc' = IF r.ret = 0 \/ Ambig(A0, B) THEN "built" ELSE "tc"
           /\ H([a |-> "build", dd |-> 1, x |-> 1, y |-> 2, flags |-> 0])
           /\ UNCHANGED <<B, T, D2, D3, fl, ned>>
 
 BuildBadFlags == /\ Mode = "build" /\ pc = "start" /\ ned = 0
                  /\ \E f \in {1, 2} : H([a |-> "build", dd |-> 1, x |-> 1, y |-> 2, flags |-> f])
                  /\ ret' = -1 /\ pc' = "done" /\ chk' = TRUE
-                 /\ UNCHANGED <<B, T, D, D2, D3, fl, ned>>
+                 /\ UNCHANGED <<B, T, D, D2, D3, bret, fl, ned>>
 
 DupA(from, to) == /\ pc = from /\ pc' = to
                   /\ T' = A0 /\ chk' = TRUE
                   /\ H([a |-> "dup", dst |-> 3, src |-> 1])
-                  /\ UNCHANGED <<B, D, D2, D3, ret, fl, ned>>
+                  /\ UNCHANGED <<B, D, D2, D3, ret, bret, fl, ned>>
 
 \* apply list number dd (1 = D, 2 = D2) to T with flags f; want: what the property promises here
 Apply(from, to, dd, f, want(_)) ==
@@ -129,7 +130,7 @@ Apply(from, to, dd, f, want(_)) ==
        /\ T' = r.P /\ ret' = r.ret /\ fl' = f
        /\ chk' = (ApplyRel(T, E, f, r.ret, r.P) /\ want(r))
   /\ H([a |-> "apply", s |-> 3, dd |-> dd, flags |-> f])
-  /\ UNCHANGED <<B, D, D2, D3, ned>>
+  /\ UNCHANGED <<B, D, D2, D3, bret, ned>>
 
 BuildChk(from, to, x, y) ==
   /\ pc = from /\ pc' = to
@@ -137,43 +138,46 @@ BuildChk(from, to, x, y) ==
          PY == IF y = 2 THEN B ELSE T
          r == ModelBuild(PX, PY) IN
        /\ D3' = r.E /\ ret' = r.ret
-       /\ chk' = (BuildRel(PX, PY, r.ret, r.E) /\ r.ret = 0 /\ r.E = <<>>)
+       /\ chk' = (BuildRel(PX, PY, r.ret, r.E) /\ (bret = 0 => (r.ret = 0 /\ r.E = <<>>)))
   /\ H([a |-> "build", dd |-> 3, x |-> x, y |-> y, flags |-> 0])
-  /\ UNCHANGED <<B, T, D, D2, fl, ned>>
+  /\ UNCHANGED <<B, T, D, D2, bret, fl, ned>>
 
 Xml(from, to) ==
   /\ pc = from /\ pc' = to
   /\ H([a |-> "xml", dd |-> 1, d2 |-> 2])       \* reference name and buffer/file variant are chosen when the scenario is bound
   /\ D2' = IF HasComplex(D) THEN <<>> ELSE D
   /\ chk' = XmlRel(D, <<>>, IF HasComplex(D) THEN -1 ELSE 0, 0, D2', <<>>)
-  /\ UNCHANGED <<B, T, D, D3, ret, fl, ned>>
+  /\ UNCHANGED <<B, T, D, D3, ret, bret, fl, ned>>
 
 BuildScenario ==
   /\ Mode = "build"
   /\ \/ DupA("built", "dup")
-     \/ Apply("dup", "fwd", 1, 0, LAMBDA r : r.ret = 0 /\ VisEq(r.P, B))
+     \/ Apply("dup", "fwd", 1, 0, LAMBDA r : bret = 0 => (r.ret = 0 /\ VisEq(r.P, B)))
      \/ BuildChk("fwd", "chk1", 3, 2)                                   \* Build(T', B) is empty
-     \/ Apply("chk1", "rev", 1, 1, LAMBDA r : r.ret = 0 /\ VisEq(r.P, A0))
+     \/ Apply("chk1", "rev", 1, 1, LAMBDA r : bret = 0 => (r.ret = 0 /\ VisEq(r.P, A0)))
      \/ BuildChk("rev", "chk2", 1, 3)                                   \* Build(A, T'') is empty
      \/ Xml("chk2", "xml")
-     \/ Apply("xml", "done", 2, 0, LAMBDA r : r.ret = 0 /\ VisEq(r.P, B))
+     \/ Apply("xml", "done", 2, 0, LAMBDA r : bret = 0 => (r.ret = 0 /\ VisEq(r.P, B)))
+     \* a TOO_COMPLEX answer: its entries are applied once, the complex one must stop the application and undo the others
+     \/ DupA("tc", "tcdup")
+     \/ Apply("tcdup", "done", 1, 0, LAMBDA r : r.ret < 0 /\ r.P = T)
 
 \* ---- mode "hand"
 AddEntry == /\ Mode = "hand" /\ pc = "start" /\ Len(D) < MaxHand
             /\ \E e \in Alpha(D) : D' = Append(D, e)
-            /\ UNCHANGED <<B, T, D2, D3, ret, fl, pc, ned, chk, hist>>
+            /\ UNCHANGED <<B, T, D2, D3, ret, bret, fl, pc, ned, chk, hist>>
 Go == /\ Mode = "hand" /\ pc = "start" /\ pc' = "mk"
       /\ H([a |-> "mk", dd |-> 1, L |-> D])
-      /\ UNCHANGED <<B, T, D, D2, D3, ret, fl, ned, chk>>
+      /\ UNCHANGED <<B, T, D, D2, D3, ret, bret, fl, ned, chk>>
 HandScenario ==
   /\ Mode = "hand"
   /\ \/ DupA("mk", "hdup")
      \/ \E f \in ApplyFlags : Apply("hdup", "h1", 1, f, LAMBDA r : r.ret # 0 => r.P = T)
      \* then the other direction (what was applied entirely is unapplied when it is a single-step list, may fail for chains)
      \/ (ret = 0 /\ fl \in KnownApplyFlags) /\ Apply("h1", "h2", 1, 1 - fl, LAMBDA r : r.ret # 0 => r.P = T)
-     \/ (ret # 0 \/ fl \notin KnownApplyFlags) /\ pc = "h1" /\ pc' = "h2" /\ UNCHANGED <<B, T, D, D2, D3, ret, fl, ned, chk, hist>>
+     \/ (ret # 0 \/ fl \notin KnownApplyFlags) /\ pc = "h1" /\ pc' = "h2" /\ UNCHANGED <<B, T, D, D2, D3, ret, bret, fl, ned, chk, hist>>
      \/ XmlSafe(D) /\ Xml("h2", "done")
-     \/ ~XmlSafe(D) /\ pc = "h2" /\ pc' = "done" /\ UNCHANGED <<B, T, D, D2, D3, ret, fl, ned, chk, hist>>
+     \/ ~XmlSafe(D) /\ pc = "h2" /\ pc' = "done" /\ UNCHANGED <<B, T, D, D2, D3, ret, bret, fl, ned, chk, hist>>
 
 Next == Edit \/ Build1 \/ BuildBadFlags \/ BuildScenario \/ AddEntry \/ Go \/ HandScenario
 Spec == Init /\ [][Next]_vars
